@@ -57,7 +57,7 @@ def _get_missing_parts(fmt):
     """
     directive_mapping = {
         "day": ["%d", "%-d", "%j", "%-j"],
-        "month": ["%b", "%B", "%m", "%-m"],
+        "month": ["%b", "%B", "%m", "%-m", "%j", "%-j"],
         "year": ["%y", "%-y", "%Y"],
     }
 
